@@ -194,7 +194,7 @@ def serialise(value, fmt):
         return repr(value)
     if fmt == 'yaml':
         import yaml
-        return yaml.safe_dump(value, allow_unicode=True)
+        return yaml.safe_dump(value, allow_unicode=True, sort_keys=False)      # (keys in the target's own order)
     return toml_dumps(value)
 
 
